@@ -356,6 +356,48 @@ def pushTop (cap : Nat) (d : V) (emplace : Bool) : Except Err V :=
   else if emplace then emplaceBackA cap d (.elem (d.length - 1))
   else pushBackA cap d (.elem (d.length - 1))
 
+/-! ### rvalue arguments the caller still owns afterwards
+
+`T t(x); v.push_back(etl::move(t));` — `t` is an object of the caller; after the call it is either untouched or
+moved from, and for an element type with an observable moved-from state (`mvd`: kinds `nt`, `hd`) the caller sees
+which.  The members taking `T&&` (or forwarding an rvalue) are modelled with the argument as a *slot*: the member
+returns, next to its result, whether it has constructed an element from the slot (`true` = `t` is moved from, it shows
+`mvd k x`; `false` = `t` still holds `x`).  [sequence.reqmts] `push_back(rv)` / `insert(p, rv)` / `emplace*(args)`:
+the new element is constructed from `std::move(rv)` / `std::forward<Args>(args)...` — exactly one move construction;
+[inplace.vector.modifiers] `try_push_back(T&&)` / `try_emplace_back`: "Otherwise [size() == capacity()], there are
+no effects" — the argument is not touched. -/
+
+/-- `push_back(U&& value)` with an rvalue: `TETL_PRECONDITION(!full())`, then `emplace_back(etl::forward<U>(value))`
+    = `new (end()) T(etl::move(value))`: the slot is consumed -/
+def pushBackRv (cap : Nat) (d : V) (x : Nat) : Except Err (V × Bool) :=
+  if d.length = cap then .error (.pre "push_back: !full()")
+  else do
+    let d1 ← emplaceBack cap d x
+    .ok (d1, true)
+
+/-- `emplace_back(etl::move(t))` (the storage member; `stack::emplace` forwards to it) -/
+def emplaceBackRv (cap : Nat) (d : V) (x : Nat) : Except Err (V × Bool) := do
+  let d1 ← emplaceBack cap d x
+  .ok (d1, true)
+
+/-- `insert(position, value_type&& x)`: the two checks, then `move_insert(position, &x, &x + 1)` whose loop runs
+    `emplace_back(etl::move(*first))` on the caller's object -/
+def insertRvArg (cap : Nat) (d : V) (pos x : Nat) : Except Err ((V × Nat) × Bool) :=
+  if d.length = cap then .error (.pre "insert/emplace: !full()")
+  else if pos > d.length then .error (.pre "assert_iterator_in_range")
+  else do
+    let r ← moveInsert cap d pos [x]
+    .ok (r, true)
+
+/-- `emplace(position, etl::move(t))`: the two checks, then `value_type a(etl::forward<Args>(args)...)` moves the
+    caller's object into the local `a`, which `move_insert` moves on into the vector -/
+def emplaceRvArg (cap : Nat) (d : V) (pos x : Nat) : Except Err ((V × Nat) × Bool) :=
+  if d.length = cap then .error (.pre "insert/emplace: !full()")
+  else if pos > d.length then .error (.pre "assert_iterator_in_range")
+  else do
+    let r ← moveInsert cap d pos [x]      -- `value_type a(etl::move(t))` has consumed the slot before
+    .ok (r, true)
+
 /-! ### static_vector: erase, resize, assign -/
 
 /-- `erase(first, last)` -/
@@ -579,6 +621,21 @@ def ipvTryA (cap : Nat) (d : V) (a : Arg) : Except Err (V × Option Nat) :=
   else do
     let r ← ipvUncheckedA cap d a
     .ok (r.1, some r.2)
+
+/-- `unchecked_push_back(T&& val)` / `unchecked_emplace_back(etl::move(t))`: precondition, then
+    `construct_at(end(), etl::move(val))` consumes the caller's object (see `pushBackRv` for the slot) -/
+def ipvUncheckedRv (cap : Nat) (d : V) (x : Nat) : Except Err (V × Nat × Bool) := do
+  let r ← ipvUnchecked cap d x
+  .ok (r.1, r.2, true)
+
+/-- `try_push_back(T&& val)` / `try_emplace_back(etl::move(t))`: `if (size() == capacity()) return nullptr;` comes
+    first — on a full vector (always, for `inplace_vector<T, 0>`) nothing has looked at `val`, the caller's object is
+    untouched; otherwise `unchecked_push_back(etl::move(val))` consumes it -/
+def ipvTryRv (cap : Nat) (d : V) (x : Nat) : Except Err (V × Option Nat × Bool) :=
+  if d.length = cap then .ok (d, none, false)
+  else do
+    let r ← ipvUncheckedRv cap d x
+    .ok (r.1, some r.2.1, r.2.2)
 
 def ipvPop (cap : Nat) (d : V) : Except Err V :=
   if d.isEmpty then .error (.pre "pop_back: not empty()")
